@@ -70,6 +70,19 @@ meta={'seed_id':'$id','property':'$prop','source':'independent sub-agent given o
       'confirmed': r.get('applies')=='yes' and r.get('builds')=='yes' and r.get('suite_pass_fail','').startswith('207 0') and r.get('demo_with_patch')=='FAIL' and r.get('demo_without_patch')=='PASS',
       'what_was_run':'lib/seed_eval.sh: scratch worktree (git apply, go build, full suite, TestDemo with and without the patch), then patch applied to /repo working tree, ./check run, tree restored',
       'checks':{k[6:]:v for k,v in r.items() if k.startswith('check_')}}
-json.dump(meta,open('$VR/seeded/$id/meta.json','w'),indent=1)
+# keep what was recorded by hand (change, needs_to_manifest) and the detection history; append this evaluation to it
+import os, subprocess
+mp='$VR/seeded/$id/meta.json'
+prev=json.load(open(mp)) if os.path.exists(mp) else {}
+for k in ('change','needs_to_manifest','detection_history'):
+    if k in prev: meta[k]=prev[k]
+try: commit=subprocess.run(['git','-C','/verif','rev-parse','--short','HEAD'],capture_output=True,text=True).stdout.strip()
+except Exception: commit='?'
+hist=meta.get('detection_history',[])
+if isinstance(hist,str): hist=[{'note':hist}]
+meta['detection_history']=hist
+entry={'machinery_commit':commit,'checks':meta['checks']}
+if not hist or hist[-1].get('checks')!=entry['checks']: hist.append(entry)
+json.dump(meta,open(mp,'w'),indent=1)
 print(json.dumps(meta,indent=1))
 PY
